@@ -71,6 +71,16 @@ def evaluate(dst, props, config="default"):
             except Exception as e:
                 obs.append(Ob(r, "analyser-crash", "-", VIOLATED, "rule crashed: %r" % e, {"tb": traceback.format_exc()[-1200:]}))
         out[p] = obs
+    # open known findings are reported as KNOWN-FINDING by ./check, not as violations: drop them here as well
+    try:
+        import json
+        kf = json.load(open(os.path.join(HERE, "known_findings.json"))).get("findings", [])
+    except Exception:
+        kf = []
+    for p in list(out):
+        keys = {k["key"] for k in kf if k.get("property") == p and k.get("status") == "open"}
+        if keys:
+            out[p] = [o for o in out[p] if not (o.bad() and o.key in keys)]
     return out
 
 
